@@ -334,6 +334,12 @@ macro_rules! reloader {
                         .map_err(|e| format!("deserialize_full: {e}"))?;
                     Ok(Box::new($wrap(Box::new(ef))))
                 }
+                "eps8" => {
+                    // the same bytes placed at 8 modulo 16 (a legitimate buffer for ε-serde)
+                    let buf = leak_aligned(bytes, true);
+                    let ef = T::deserialize_eps(buf).map_err(|e| format!("deserialize_eps: {e}"))?;
+                    Ok(Box::new($wrap(Box::new(ef))))
+                }
                 "eps" => {
                     let buf = leaks.aligned_copy(bytes);
                     let ef = T::deserialize_eps(buf).map_err(|e| format!("deserialize_eps: {e}"))?;
